@@ -210,7 +210,7 @@ def reload_net(net, how):
 RELOADS = ["pickle", "json", "deepcopy", "touch"]
 
 
-PRELUDES = ["reuse_temperature", "reuse_setpoints", "reuse_loads", "failed_run", "touched_results"]
+PRELUDES = ["reuse_temperature", "reuse_setpoints", "reuse_loads", "failed_run", "touched_results", "transient_steps"]
 
 
 def solve_after_prelude(rec, opts, prelude):
@@ -245,7 +245,6 @@ def solve_after_prelude(rec, opts, prelude):
                 net.compressor["pressure_ratio"] = 1.0 + (net.compressor["pressure_ratio"] - 1.0) * 0.5
             if "flow_control" in net and len(net.flow_control):
                 net.flow_control["controlled_mdot_kg_per_s"] = net.flow_control["controlled_mdot_kg_per_s"] * 0.5
-                net.flow_control["control_active"] = ~net.flow_control["control_active"].astype(bool)
             if "press_control" in net and len(net.press_control):
                 net.press_control["controlled_p_bar"] = net.press_control["controlled_p_bar"] * 0.9
             if "pump" in net and len(net.pump):
@@ -259,6 +258,15 @@ def solve_after_prelude(rec, opts, prelude):
         for t, df in keep.items():
             net[t] = df
         return net, solve(net, **ro)
+    if prelude == "transient_steps":
+        # the transient (thermal storage) mode keeps the internal tables of the previous time step: steps 0, 1, 2 on one net
+        # object; hydraulics are quasi-steady in every step, so the result of the last step obeys the same laws
+        r = None
+        for k in range(3):
+            r = solve(net, **dict(opts, transient=True, dt=60.0, simulation_time_step=k))
+            if not r.ok:
+                break
+        return net, r
     if prelude == "failed_run":
         solve(net, **dict({k: v for k, v in opts.items() if k != "iter"}, max_iter_hyd=1, max_iter_therm=1, max_iter_bidirect=1,
                           tol_m=0.0))
